@@ -941,10 +941,15 @@ theorem tagsErr_none (tags : List TagEntry) : tagsErr tags = none ↔ tagsReject
   unfold tagsErr
   cases tags.any (fun e => e.leaf.isUnsupported) <;> cases tags.any (fun e => e.path.any badKey) <;> simp
 
+theorem linksErr_none (links : List String) : linksErr links = none ↔ linksRejected links = false := by
+  unfold linksErr linksRejected
+  cases links.any (fun t => !qIds.contains t) <;> simp
+
 theorem valueErr_none (f : PFields) : valueErr f = none ↔ keyRejected f = false := by
   unfold valueErr keyRejected
-  rw [or_eq_none', tagsErr_none]
-  cases h : f.roles.any (fun r => decide (r.utf8ByteSize + 1 > maxKeySize)) <;> simp
+  rw [or_eq_none', or_eq_none', tagsErr_none, linksErr_none]
+  cases h : f.roles.any (fun r => decide (r.utf8ByteSize + 1 > maxKeySize)) <;>
+    cases tagsRejected f.tags <;> cases linksRejected f.links <;> simp
 
 theorem persist_none (σ : StoreId) (c : Cnt) (f : PFields) :
     ((persist .none σ c f).2 = none) ↔ keyRejected f = false := by
@@ -1738,6 +1743,11 @@ theorem runSteps_ghost (env : Env) (h : env.t = expectedReturns) (body : List St
         rw [iok ho, gok hr]
     | fail tag => simp [runSteps, TxSt.raise]
     | fail1 tag => simp [runSteps, TxSt.raise]
+    | link op id ts =>
+      simp only [runSteps]
+      cases hl : (linkStep op id ts st.db).1 with
+      | some e => simp [TxSt.raise]
+      | none => exact ih hrest _
     | addCommit tag => exact ih hrest _
     | addPre tag fails => exact ih hrest _
     | nestedBegin => exact ih hrest _
@@ -1786,6 +1796,14 @@ theorem runSteps_refines (env : Env) (h : env.t = expectedReturns) (body : List 
         exact ⟨j1, j2, by rw [j3, r4]⟩
     | fail tag => simp [runSteps, specSteps, TxSt.raise, hctx]
     | fail1 tag => simp [runSteps, specSteps, TxSt.raise, hctx]
+    | link op id ts =>
+      simp only [runSteps, specSteps]
+      rw [← hdb]
+      cases hl : (linkStep op id ts st.db).1 with
+      | some e => simp [TxSt.raise, hctx]
+      | none =>
+        simp only
+        exact ih hprest _ _ rfl hctx hacc hq
     | addCommit tag =>
       unfold runSteps specSteps
       exact ih hprest _ _ hdb (by simp [hctx]) hacc hq
